@@ -159,7 +159,10 @@ TxFrame(s, ev) ==
 
 RxFrame(s, ev) ==
   LET c == ev.c + 1
-  IN IF s.conn[c] # "up" \/ s.rx[c].defect THEN s
+  IN IF s.conn[c] # "up" THEN s
+     \* an intact frame that follows a damaged one on the same connection: the statements require the
+     \* connection to be re-established, not that the frame be withheld - it may or may not surface
+     ELSE IF s.rx[c].defect THEN [s EXCEPT !.late = Append(@, [alts |-> ev.alts, soft |-> ev.soft])]
      ELSE [s EXCEPT !.rx[c].pend = Append(@, [alts |-> ev.alts, soft |-> ev.soft])]
 
 RxDefect(s, ev) ==
@@ -200,8 +203,8 @@ HealBegin(s) == [s EXCEPT !.healFrom = Len(s.acc)]
 
 HealEnd(s) ==
   LET s1 == IF Op(s) = "yes" /\ Cardinality(UpConns(s)) # 1 THEN V(s, "HealNotConnected") ELSE s
-      s2 == IF \E i \in Idx(s) : i > s.healFrom /\ s.acc[i].st = "ok" /\ s.acc[i].enc = "ok"
-                                  /\ s.acc[i].tx = 0
+      s2 == IF \E i \in Idx(s) : i > s.healFrom /\ s.acc[i].st = "ok" /\ s.acc[i].tx = 0
+                                  /\ Alive(s, s.acc[i]) /\ NeedsTx(s.acc[i])
             THEN V(s1, "HealNotTransmitting") ELSE s1
       s3 == IF \E c \in OpenConns(s) : s.rx[c].pend # <<>> THEN V(s2, "HealNotReceiving") ELSE s2
       s4 == IF \E c \in Conns(s) : c \notin UpConns(s) /\ s.conn[c] \in {"up", "half"}
